@@ -417,6 +417,11 @@ func raceScripts(r *rand.Rand, n int) []raceScript {
 			"> setoption name Noise value 30", "> go", "wait-bestmove 9000", "quiet 100", "> setoption name Depth value -1", "> setoption name Depth", "> setoption", "sync", "alive"}, "options"},
 		raceScript{"sargon", []string{"> setoption name OwnBook value false", "> position startpos", "> go depth 1", "wait-bestmove 20000", "quiet 100",
 			"> setoption name OwnBook value true", "> go", "wait-bestmove 20000", "quiet 100", "> ponderhit", "> register later", "sync", "alive"}, "options"})
+	// always: a GUI that reads slowly while an open-ended search of a position without moves reports iteration after iteration
+	// (every info channel fills up); quit / end of input must still shut the driver down
+	for _, end := range []string{"> quit", "close"} {
+		ret = append(ret, raceScript{"plain", []string{"slowreader 1000", "> position fen 7k/5Q2/6K1/8/8/8/8/8 b - - 0 1", "> go infinite", "sleep 500", end, "wait-closed", "quiet 300"}, "slow reader"})
+	}
 	// always: numeric arguments at the edges (the parser accepts any integer; whatever it means to the time control, the
 	// driver must answer and stay alive)
 	ret = append(ret,
